@@ -873,6 +873,8 @@ def call_extclass(I, c, args, kwargs, node=None):
         v = args[0] if args else ""
         if isinstance(v, (str, int, float, bool, tuple)) or v is None:
             if isinstance(v, tuple) and any(is_sym(x) for x in v):
+                if len(v) == 2 and all(kind_of(x) == "int" for x in v):
+                    return addr_str(I, v[0], v[1])
                 return Opaque("str(tuple)")
             return str(v)
         return Opaque("str()")
@@ -1226,6 +1228,33 @@ def _m_sorted(I, b, a, kw, node):
     return PyList(sorted(items), order_determined=True)
 
 
+# ---- address strings: ASSUMED contract of str() / eval() on "(a, b)" keys of a scenario document
+# str((a, b)) of two ints is the canonical key ADDR_STR(a, b); eval is a pure function of the string which either
+# yields a pair (components EV_A / EV_B with run-time type tags EV_TA / EV_TB) or does not (then unpacking / using it
+# as an address raises); eval inverts str on canonical keys.
+ADDR_STR = z3.Function("addr_str", z3.IntSort(), z3.IntSort(), z3.IntSort())
+EV_PAIR = z3.Function("eval_is_pair", z3.IntSort(), z3.BoolSort())
+EV_A = z3.Function("eval_fst", z3.IntSort(), z3.IntSort())
+EV_B = z3.Function("eval_snd", z3.IntSort(), z3.IntSort())
+EV_TA = z3.Function("eval_fst_type", z3.IntSort(), z3.IntSort())
+EV_TB = z3.Function("eval_snd_type", z3.IntSort(), z3.IntSort())
+
+
+def addr_axioms(I):
+    if I.ext_state.get("addr_axioms_assumed"):
+        return
+    I.ext_state["addr_axioms_assumed"] = True
+    a, b = z3.Int("_as_a"), z3.Int("_as_b")
+    k = ADDR_STR(a, b)
+    I.ctx.assume(z3.ForAll([a, b], z3.And(EV_PAIR(k), EV_A(k) == a, EV_B(k) == b, EV_TA(k) == TAG_INT, EV_TB(k) == TAG_INT,
+                                          k >= 900000), patterns=[ADDR_STR(a, b)]))
+
+
+def addr_str(I, a, b):
+    addr_axioms(I)
+    return SymV(ADDR_STR(ival(a), ival(b)), "name")
+
+
 @ext("builtins.eval")
 def _m_eval(I, b, a, kw, node):
     s = a[0]
@@ -1235,6 +1264,12 @@ def _m_eval(I, b, a, kw, node):
         except Exception:
             I.raise_("SyntaxError", node)
         return v
+    if isinstance(s, SymV) and s.ty == "name":
+        addr_axioms(I)
+        if not I.ctx.branch(EV_PAIR(s.t)):
+            # anything but a pair: modelled as the evaluation (or the first use as an address) failing
+            I.raise_("SyntaxError", node)
+        return (SymV(EV_A(s.t), "int", pytag=EV_TA(s.t)), SymV(EV_B(s.t), "int", pytag=EV_TB(s.t)))
     raise EngineLimit("eval of non-concrete string")
 
 
